@@ -88,6 +88,7 @@ func (g *vhStream) Read(p []byte) (int, error) {
 //verif:param failure 0..1
 //verif:param zeros quick=0 thorough=0..1
 //verif:maxdec 100000
+//verif:bufsensitive
 func VH_C09_ReadLine(total, failure, zeros int) {
 	data := vBytes("stream", total)
 	g := &vhStream{data: data, failure: failure == 1, zeroLeft: zeros}
@@ -140,6 +141,7 @@ func VH_C09_ReadLine(total, failure, zeros int) {
 //verif:prop C09
 //verif:param total 0..3
 //verif:maxsteps 20000000
+//verif:bufsensitive
 func VH_C09_NoProgress(total int) {
 	data := vBytes("stream", total)
 	for _, b := range data {
@@ -181,6 +183,7 @@ func (w *vhSink) Write(p []byte) (int, error) {
 //verif:param total quick=0..4 thorough=0..6
 //verif:param failure 0..1
 //verif:maxdec 100000
+//verif:bufsensitive
 func VH_C02_PassThrough(total, failure int) {
 	data := vBytes("stream", total)
 	// junk only: no line may look like the start of a dump (first byte is not
@@ -222,6 +225,7 @@ func VH_C02_PassThrough(total, failure int) {
 //verif:param failure 0
 //verif:param zeros quick=0 thorough=0..1
 //verif:maxdec 100000
+//verif:bufsensitive
 func VH_C11_ReadLine(total, failure, zeros int) { VH_C09_ReadLine(total, failure, zeros) }
 
 // VH_C11_Forward: as a live filter, every complete line has been written by the
@@ -231,6 +235,7 @@ func VH_C11_ReadLine(total, failure, zeros int) { VH_C09_ReadLine(total, failure
 //verif:param total quick=0..4 thorough=0..6
 //verif:param failure 0
 //verif:maxdec 100000
+//verif:bufsensitive
 func VH_C11_Forward(total, failure int) { VH_C02_PassThrough(total, failure) }
 
 // vhNoAlias: nothing kept in the scanner state shares memory with the line
